@@ -28,7 +28,7 @@ RULE = ("step: every UTC-offset transition 2000-01-01..2037-12-31 of every zone 
 ASSUMPTIONS = ["the hourly data class builds whole local days of on-the-hour instants; windows are built the same way (pandas date_range over local wall-clock days)",
                "the second occurrence of a repeated hour may carry any value between its neighbours' slots (it is synthesised)"]
 REQUIRED_REACH = {"step.transitions": 15000, "step.ok": 14000, "e2e.predict_judged": 40, "e2e.rows": 50000, "e2e.span_with_transition": 10,
-                  "e2e.finiteness_rows": 2000}
+                  "e2e.finiteness_rows": 2000, "e2e.zone_pairs_in_one_process": 2}
 LO, HI = dt.datetime(2000, 1, 1), dt.datetime(2038, 1, 1)
 
 VIOL = []
@@ -214,8 +214,10 @@ def e2e_case(spec, keys):
     tag = dict(family=spec["family"], tz=tz)
     hourlyish = fam.kind in ("hourly", "caltrack")
     zclass = "zone-with-transition-at-local-midnight" if zone_touches_midnight(tz) else "ordinary-zone"
+    if spec.get("baseline_days", 365) < 300:
+        zclass += ":partial-year-baseline"
     try:
-        bdf = fam.baseline_frame(rng, tz=tz, days=365, start="2018-01-01")
+        bdf = fam.baseline_frame(rng, tz=tz, days=spec.get("baseline_days", 365), start="2018-01-01")
         data = fam.baseline_data(bdf)
         m = fam.fit(fam.new_model(seed=spec["n"] + 1), data)
     except Exception as e:
@@ -309,6 +311,16 @@ def gen_cases(tier, seed):
     for i, z in enumerate(MIDNIGHT_ZONES[: (2 if q else len(MIDNIGHT_ZONES))]):
         cases.append(dict(kind="e2e", family="hourly:default", tz=z, midnight=True, n=k, timeout=3000))
         k += 1
+    for i, z in enumerate(["America/Chicago", "Europe/London"] if q else ["America/Chicago", "Europe/London", "Australia/Sydney", "UTC", "America/Los_Angeles", "Asia/Kolkata"]):
+        cases.append(dict(kind="e2e", family="hourly:default", tz=z, baseline_days=[170, 120, 200][i % 3], n=k, timeout=3000))
+        k += 1
+    pairs = [["America/Chicago", "America/Regina"], ["America/Phoenix", "America/Denver"]]
+    if not q:
+        pairs += [["Europe/London", "Atlantic/Reykjavik"], ["Australia/Brisbane", "Australia/Sydney"], ["America/Regina", "America/Chicago"], ["Asia/Tokyo", "Asia/Seoul"],
+                  ["Europe/Berlin", "Africa/Lagos"], ["America/New_York", "America/Bogota"]]
+    for zs in pairs:
+        cases.append(dict(kind="e2e-pair", family="hourly:default", zones=zs, tz=zs[0], n=k, timeout=3000))
+        k += 1
     dfam = ["daily:current", "billing", "daily:legacy", "caltrack"]
     for i in range(4 if q else 40):
         cases.append(dict(kind="e2e", family=dfam[i % 4] if (q or i % 8) else "caltrack", tz=(zones_h + MIDNIGHT_ZONES)[i % (len(zones_h) + (0 if q else len(MIDNIGHT_ZONES)))], n=k, timeout=3000))
@@ -320,6 +332,15 @@ def run_case(spec):
     del VIOL[:]
     keys = set()
     hist = {"kind": spec["kind"]}
+    if spec["kind"] == "e2e-pair":
+        # hostile history: the same instants processed in one process first in zone A, then in zone B (same winter offset,
+        # different DST days): nothing learnt about A's clock may leak into B's normalisation
+        n = 0
+        for tz in spec["zones"]:
+            n += e2e_case(dict(spec, tz=tz, kind="e2e"), keys)
+        I.reach("e2e.zone_pairs_in_one_process")
+        hist["e2e_family"] = spec["family"] + "-pair"
+        return dict(viol=[dict(v) for v in VIOL], reach=I.take_reach(), keys=sorted(keys), hist=hist, events=n)
     if spec["kind"] == "step":
         n, h = step_case(spec, keys)
         hist["step_class|result"] = h
